@@ -27,6 +27,19 @@ import (
 
 const c11SlotCount uint16 = 16
 
+// c11Known rate-limits two registered findings to two kept witnesses per run
+// (every occurrence is still counted) so that they cannot crowd fresh
+// violations out of the bounded violation list.
+var c11KnownSeen = map[string]int{}
+
+func c11Known(r *verifkit.Run, sig string, wit any) {
+	r.Count("known."+sig, 1)
+	if c11KnownSeen[sig] < 2 {
+		c11KnownSeen[sig]++
+		r.Violation(sig, wit)
+	}
+}
+
 func c11Seed(rng *rand.Rand, store *db.NodeStore, fixedWidth, emptyPayloads bool) (rows int, err error) {
 	ctx := context.Background()
 	slot := func(key string) metadb.HashSlot { return metadb.HashSlot(hashslot.HashSlotForKey(key, c11SlotCount)) }
@@ -407,7 +420,7 @@ func c11TransferCase(r *verifkit.Run, rng *rand.Rand, ci int, dir string) {
 	}
 	r.Eval(1)
 	if _, err := transfer.ValidateBundle(ctx, bundle, transfer.ImportOptions{HashSlotCount: c11SlotCount}); err != nil {
-		r.Violation("transfer-validate-rejects-own-export", map[string]any{"err": err.Error()})
+		c11Known(r, "transfer-validate-rejects-own-export", map[string]any{"err": err.Error()})
 		return
 	}
 	clean, err := c11Tree(bundle)
@@ -532,7 +545,11 @@ func c11TransferCase(r *verifkit.Run, rng *rand.Rand, ci int, dir string) {
 		empty, what := c11TargetEmpty(ft)
 		if ierr != nil && !empty {
 			wit["left_behind"], wit["err"] = what, ierr.Error()
-			r.Violation("transfer-partial-state-after-rejected-import:"+f.class, wit)
+			if f.class == "manifest-drop-file" {
+				c11Known(r, "transfer-partial-state-after-rejected-import:"+f.class, wit)
+			} else {
+				r.Violation("transfer-partial-state-after-rejected-import:"+f.class, wit)
+			}
 		}
 		if !empty {
 			// start over on a fresh target
